@@ -112,6 +112,9 @@ type trCtx struct {
 	aliases      map[types.Object]*trAlias // local variables that point into a map entry (trans_alias.go)
 	inCallback   bool                                           // inside a closure that runs many times: untranslated calls are FUNCTION parameters
 	nilParamHook func(e ast.Expr, op token.Token) (string, bool) // `param == nil` for a pointer parameter read as a value
+	deadAlias    map[types.Object]bool                          // trans_tree.go: aliases into a tree that was modified since
+	pureLits     map[*ast.FuncLit]string                        // trans_tree.go: function literals already translated as pure definitions
+	postLits     map[*ast.FuncLit]*trPostLit                    // trans_tree.go: function literals already translated for PostOrder
 }
 
 type trPre struct {
@@ -403,6 +406,9 @@ func (c *trCtx) ident(x *ast.Ident) string {
 		if o.Pkg() != nil && o.Parent() == o.Pkg().Scope() {
 			return c.pkgVar(o, x.Pos())
 		}
+		if c.deadAlias[o] {
+			trFail(x.Pos(), "%s points into a tree that was modified (other than through it) since: outside the subset", x.Name)
+		}
 		if n, ok := c.names[o]; ok {
 			return n
 		}
@@ -689,8 +695,16 @@ func (c *trCtx) composite(x *ast.CompositeLit) string {
 			}
 			return nil
 		}
+		// an omitted field (untranslatable type) set from an untranslatable parameter: dropped with the field
+		opaqueGiven := map[string]bool{}
 		for i, el := range x.Elts {
 			if kv, ok := el.(*ast.KeyValueExpr); ok {
+				if fn := kv.Key.(*ast.Ident).Name; c.t.fieldOmitted(ty, fn) {
+					if id, isID := trUnparen(kv.Value).(*ast.Ident); isID && c.opaqueParams[c.info().Uses[id]] {
+						given[fn], opaqueGiven[fn] = "", true
+						continue
+					}
+				}
 				given[kv.Key.(*ast.Ident).Name] = c.elemExpr(kv.Value, fieldType(kv.Key.(*ast.Ident).Name))
 			} else {
 				given[u.Field(i).Name()] = c.elemExpr(el, u.Field(i).Type())
@@ -700,7 +714,7 @@ func (c *trCtx) composite(x *ast.CompositeLit) string {
 		for i := 0; i < u.NumFields(); i++ {
 			f := u.Field(i)
 			if c.t.fieldOmitted(ty, f.Name()) {
-				if _, set := given[f.Name()]; set {
+				if _, set := given[f.Name()]; set && !opaqueGiven[f.Name()] {
 					trFail(x.Pos(), "field %s is omitted from the translated struct and cannot be set", f.Name())
 				}
 				continue
@@ -811,6 +825,9 @@ func (c *trCtx) call(x *ast.CallExpr) string {
 		y.Fun = ix.X
 		c.info().Types[&y] = c.info().Types[x]
 		return c.call(&y)
+	}
+	if r, ok := c.treeCallExpr(x); ok {
+		return r
 	}
 	if fo := c.calledFunc(x); fo != nil {
 		if r, ok := c.externalCall(fo, x); ok {
